@@ -13,7 +13,9 @@ import (
 )
 
 const (
-	maxID uint64 = (1 << 26) - 1
+	// The counter field of the generated EUIs is 25 bits wide (see
+	// protocol.NewDeviceEUI). Bit 25 is the first bit of the NetID.
+	maxID uint64 = (1 << 25) - 1
 )
 
 // The key dispatcher is responsible for handing out keys for a single
